@@ -35,6 +35,42 @@ def run(ctx):
     ctx.guarded("R-C02-reason-class", reason_class, ctx, prog)
 
 
+NARROWING = re.compile(r"Iterator::(take|skip|take_while|skip_while|step_by|filter|nth|last|find|position|min|max)$"
+                       r"|as std::iter::Iterator>::(nth|last)$"
+                       r"|std::iter::(Take|Skip|TakeWhile|SkipWhile|StepBy|Filter)<"
+                       r"|::(index|index_mut|get|get_mut|get_unchecked|get_unchecked_mut|first|first_mut|last_mut|truncate|chunks|chunks_mut|windows|split_off|pop|pop_front|pop_back)$")
+
+
+def src_chains(srcs, acc=()):
+    """(call paths from the value back to the leaf, leaf) for every leaf of a provenance forest"""
+    for s_ in srcs:
+        if s_.kind == "call":
+            if getattr(s_, "inner", None):
+                yield from src_chains(s_.inner, acc + (s_.path,))
+            else:
+                yield acc + (s_.path,), s_
+        elif s_.kind == "op":
+            for a in s_.args:
+                yield from src_chains(a, acc)
+        else:
+            yield acc, s_
+
+
+def _stmt_places(st):
+    out = []
+    def walk(x):
+        if isinstance(x, dict):
+            if "l" in x and isinstance(x.get("l"), int):
+                out.append(x)
+            for v in x.values():
+                walk(v)
+        elif isinstance(x, list):
+            for v in x:
+                walk(v)
+    walk(st)
+    return out
+
+
 def drain(ctx, prog, ver):
     rule = "R-C02-drain"
     adt = "state::MqttState" if ver == "v4" else "v5::state::MqttState"
@@ -56,6 +92,48 @@ def drain(ctx, prog, ver):
                                 f = f.split(".")[-1]
                                 if f in holders:
                                     found[f] = b.loc(st.get("sp"))
+    # complete walk: the iteration that carries a holder's entries into the requests must not be narrowed
+    # (Iterator::take/skip/step_by/filter.., a sub-slice, get()/first()/last()); a split must have both halves walked.
+    # Packet ids of replayed publishes come from EARLIER connections, so no bound of the current one covers them.
+    for b in bodies:
+        for blk in b.blocks:
+            for st in blk["s"]:
+                if "lhs" in st and st["rv"]["k"] == "agg" and st["rv"].get("adt", "").endswith("Request") and st["rv"]["var"] in ("Publish", "PubRel"):
+                    for o in st["rv"]["ops"]:
+                        for chain, leaf in src_chains(provenance(b, o, through_calls=[r"."])):
+                            fs = [x.split(".")[-1] for x in (getattr(leaf, "fields", None) or [])]
+                            hit = [f for f in fs if f in holders]
+                            if not hit:
+                                continue
+                            narrowed = [c for c in chain if NARROWING.search(c)]
+                            if narrowed:
+                                ctx.violation(rule, clean.id, "field %s drained only in part" % hit[0],
+                                              "MqttState::clean() walks %s through %s: entries outside that part stay behind in the state (never retransmitted) although ids of replayed publishes were handed out under an earlier connection's limits" % (hit[0], narrowed[0]),
+                                              site=b.loc(st.get("sp")))
+                            else:
+                                ctx.ok(rule, clean.id, "field %s is walked completely (%d adapters, none narrowing)" % (hit[0], len(chain)), site=b.loc(st.get("sp")))
+        for bb, t in b.calls():
+            if b.is_cleanup(bb) or not re.search(r"::split_at(_mut)?$|::split_(first|last)(_mut)?$", callee_path(t)):
+                continue
+            fs = [x.split(".")[-1] for x in (receiver_fields(b, t) or [])]
+            if not fs or fs[-1] not in holders:
+                continue
+            dest = t["dest"]["l"]
+            used = set()
+            for blk in b.blocks:
+                if blk.get("cleanup"):
+                    continue
+                for st in blk["s"]:
+                    for pl in _stmt_places(st):
+                        if pl["l"] == dest:
+                            pf = place_fields(pl)
+                            if pf:
+                                used.add(pf[0])
+            if {"0", "1"} <= used:
+                ctx.ok(rule, clean.id, "both halves of the split of %s are walked" % fs[-1], site=b.loc(t.get("sp")))
+            else:
+                ctx.violation(rule, clean.id, "half of the split of %s not walked" % fs[-1],
+                              "MqttState::clean() splits %s and uses only part(s) %s of the result" % (fs[-1], sorted(used)), site=b.loc(t.get("sp")))
     for f in holders:
         if f in found:
             ctx.ok(rule, clean.id, "field %s is drained into the pending requests" % f, site=found[f])
